@@ -106,6 +106,16 @@ func runC17HTTP(r *Run, rng *Rng, poolSize int) {
 		return postBody(ep, body)
 	}
 	r.Eval(1)
+	// any sequencing round (tick) between here and the end of step 3 rotates
+	// the pool under the scenario: it is then skipped, not judged
+	ticksAtStart := r.Counter("lock_commits")
+	overtaken := func() bool {
+		if r.Counter("lock_commits") != ticksAtStart {
+			r.Count("scenario_overtaken_by_tick", 1)
+			return true
+		}
+		return false
+	}
 	var mu sync.Mutex
 	var lows []res
 	dups := map[int]res{} // second submitter of the same pending low-priority chain
@@ -126,7 +136,6 @@ func runC17HTTP(r *Run, rng *Rng, poolSize int) {
 		}()
 	}
 	// wait (logically, not by the clock) until all fillers sit in their wait function
-	roundsBefore := r.Counter("lock_commits")
 	admitted := func() int {
 		buf := make([]byte, 1<<20)
 		buf = buf[:runtime.Stack(buf, true)]
@@ -164,6 +173,11 @@ func runC17HTTP(r *Run, rng *Rng, poolSize int) {
 	}
 	// 2. one more low-priority submission: rate limited at once
 	x := post(true, 2000)
+	if overtaken() {
+		cancel()
+		wg.Wait()
+		return
+	}
 	r.DistinctKey(fmt.Sprintf("%d/low-into-full/%d", poolSize, x.code))
 	if x.code == 410 || time.Since(now) > 5600*time.Millisecond {
 		// the read-only instant (wall clock, 6 s after the start) overtook the
@@ -191,7 +205,7 @@ func runC17HTTP(r *Run, rng *Rng, poolSize int) {
 		r.Count("scenario_overtaken_by_readonly_instant", 1)
 		return
 	}
-	if midRounds != roundsBefore {
+	if midRounds != ticksAtStart {
 		// a tick rotated the pool in the middle of the scenario (loaded machine): not a verdict
 		r.Count("scenario_overtaken_by_tick", 1)
 		return
